@@ -162,7 +162,8 @@ func Build(config string) core.BuildFunc {
 		h := &harness{w: w, actionsUsed: map[string]int{}}
 		h.sc = genScenario(w.T, config == "faulty")
 		sc := h.sc
-		h.r = rig.New(w, rig.Opts{TraceTraffic: w.T.Choose("trace", 4) == 0, Active: sc.Active, Equip: sc.Equip, T3: sc.T3, T6: sc.T6, T7: 30 * time.Second,
+		reSession := w.T.Choose("trace", 4) == 0
+		h.r = rig.New(w, rig.Opts{TraceTraffic: w.T.Choose("trace", 4) == 0, ValidateSession: reSession, Active: sc.Active, Equip: sc.Equip, T3: sc.T3, T6: sc.T6, T7: 30 * time.Second,
 			Linktest: sc.Linktest, BackoffInit: 100 * time.Millisecond, T5: time.Second})
 		r := h.r
 		r.N.Seg = func(p *simnetPipe, n int) []segPlan { return h.seg(n) }
@@ -182,6 +183,16 @@ func Build(config string) core.BuildFunc {
 				return
 			}
 			started = true
+			if reSession {
+				// session-id validation is on and the session id is changed at run time: from now on the
+				// primaries carry the new id, the peer's replies echo it, and they must be routed as ever
+				if err := r.C.UpdateConfigOptions(hsms.WithSessionID(0x1234)); err != nil {
+					w.Fail("HARNESS", "UpdateConfigOptions(WithSessionID): %v", err)
+
+					return
+				}
+				w.Probe("session_id_changed_at_run_time_with_validation_on")
+			}
 			for si, specs := range sc.Senders {
 				si, specs := si, specs
 				w.Go(fmt.Sprintf("sender%d", si), func() { h.sender(si, specs) })
